@@ -1,6 +1,8 @@
 (* C19 — Device types, categories, classes and ports are mutually consistent *)
 Require Import AS.Base.Prelude AS.Gen.Extracted AS.Spec.Tables.
 Theorem C19_types : types_ok = true.   Proof. vm_compute. reflexivity. Qed.
+Print Assumptions C19_types.
 Theorem C19_ports : ports_ok = true.   Proof. vm_compute. reflexivity. Qed.
+Print Assumptions C19_ports.
 Theorem C19_classes : classes_ok = true. Proof. vm_compute. reflexivity. Qed.
 Print Assumptions C19_classes.
